@@ -70,6 +70,10 @@ def r1_abuse_counters(ctx):
             # same predicate as is_budgeted: !is_end_stream
             e = core.guard_edges(F, g, ['frame::data::Data::is_end_stream'], lambda l: l is False)
             r.check(bool(e) and g.dominated_by_edges(bi, e), 'budget|not-end-stream', g.loc(bi), 'the budget is charged only for frames without END_STREAM (0.4.17)')
+            # the amount charged is the payload the application will see, not the flow-controlled length (padding inflates it)
+            e = g.expr_of_op(t['a'][1])
+            okamt = core.contains_call(e, 'frame::data::Data::payload') and not core.contains_call(e, 'frame::data::Data::flow_controlled_len')
+            r.check(okamt, 'budget|amount', g.loc(bi), 'record_data_frame(%s)%s' % (core.show(e)[:70], '' if okamt else ' — must be the unpadded payload length: padding makes a 1-byte DATA frame look large, so tiny frames are never charged and the receive queue grows without bound'))
         cal = [1 for bi, t in g.calls(lambda t: t['fn'].startswith('proto::error::Error::library_go_away')) ] + [1 for c in F.cg.get(g.name, ()) if c in F.fns and F.fns[c].calls(lambda t: t['fn'].startswith('proto::error::Error::library_go_away_data'))]
         r.check(bool(cal), 'budget|exhausted-is-conn-error', g.file, 'an exhausted budget becomes library_go_away_data(ENHANCE_YOUR_CALM)')
     rd = F.fn(P + 'recv::Recv::recv_data')
@@ -98,6 +102,28 @@ def r1_abuse_counters(ctx):
                 ok = False
         r.check(ok, 'budget|release|' + fname.split('::')[-2] + '::' + fname.split('::')[-1], f.file, 'a budgeted DATA event leaving the queue releases its budget (behind is_budgeted)')
     return r
+
+
+def r7_write_buffer(ctx):
+    r = ctx.rule('C18.R7', 'GUARD', 'the codec write buffer is bounded: free space is measured against the allocated capacity, and every producer is gated by it')
+    F = ctx.facts
+    ENC = 'codec::framed_write::Encoder'
+    hc = r.fn(ENC + '::has_capacity')
+    if hc:
+        calls = set(t['fn'] for bi, t in hc.calls())
+        cap = any(c.endswith('BytesMut::capacity') for c in calls)
+        rem = any(c.endswith('::remaining_mut') for c in calls)
+        r.check(cap and not rem, 'has_capacity|measured', hc.file,
+                'Encoder::has_capacity measures free space as capacity() - len()%s' % ('' if cap and not rem else ' — BufMut::remaining_mut of a BytesMut is ~usize::MAX (it grows on demand), so the gate never closes and owed replies pile up while writes are blocked'))
+        cm = [core.cmp_of(sw) for bi, sw in core.all_switches(F, hc).items() if core.cmp_of(sw)]
+        ok = any(mentions_field(c[1], ENC, 'min_buffer_capacity') or mentions_field(c[2], ENC, 'min_buffer_capacity') for c in cm) or \
+            any(mentions_field(hc.expr_of_rvalue(rv), ENC, 'min_buffer_capacity') for bi, si, pl, rv, ln in hc.stmts())
+        r.check(ok, 'has_capacity|threshold', hc.file, 'compared with Encoder.min_buffer_capacity')
+    # growth of the buffer only in Encoder::buffer / unset_frame (the encode sites), which assert has_capacity
+    b = r.fn(ENC + '::buffer')
+    if b:
+        asserts = [bi for bi, t in b.calls_to(ENC + '::has_capacity')]
+        r.check(bool(asserts) and all(b.dominated_by_blocks(x, asserts) for x, t in b.calls(lambda t: '::encode' in t['fn'])), 'buffer|asserts-capacity', b.file, 'Encoder::buffer checks has_capacity() before encoding anything')
 
 
 def r2_header_bounds(ctx):
@@ -171,6 +197,29 @@ def r2_header_bounds(ctx):
                 c = core.cmp_of(sw)
                 if c and c[0] == 'Gt' and any(x[0] == 'upvar' for x in walk(c[2])):
                     n_checks += 1
+        # the size the limits are applied to is accumulated over the whole block: load() runs once per HEADERS /
+        # CONTINUATION frame on the same block, so it must start from everything decoded so far
+        HB = 'frame::headers::HeaderBlock'
+        ch = r.fn(HB + '::calculate_header_list_size')
+        if ch:
+            reads = any(mentions_field(ch.expr_of_rvalue(rv), HB, 'field_size') for bi, si, pl, rv, ln in ch.stmts())
+            r.check(reads, 'list-size|includes-fields', ch.file, 'calculate_header_list_size includes HeaderBlock.field_size (the regular fields decoded by earlier frames of the block)')
+            seen = set()
+            for bi, t in ch.calls():
+                for a in t['a']:
+                    for x in walk(ch.expr_of_op(a)):
+                        if x[0] == 'field' and x[2] == 'frame::headers::Pseudo':
+                            seen.add(x[3])
+            npseudo = len(seen)
+            r.check(npseudo >= 5, 'list-size|includes-pseudo', ch.file, 'calculate_header_list_size counts the pseudo fields (%d of them tested)' % npseudo)
+        starts = [1 for bi, t in ld.calls_to(HB + '::calculate_header_list_size')]
+        r.check(bool(starts), 'load|size-carried', ld.file, 'HeaderBlock::load starts its running size from calculate_header_list_size() (limit per block, not per frame)')
+        adds = 0
+        for g in cl:
+            for bi, si, pl, rv, ln in g.stmts():
+                if core.write_target(g, pl) == (HB, 'field_size') and any(x[0] == 'bin' and x[1].startswith('Add') for x in walk(g.expr_of_rvalue(rv))):
+                    adds += 1
+        r.check(adds >= 1, 'load|field-size-accumulated', ld.file, 'the closure adds every stored field to HeaderBlock.field_size (%d site(s))' % adds)
         r.check(n_checks >= 7, 'headers|check-size-instances', ld.file, 'check_size! is expanded for the field path and each of the six pseudo paths (%d abuse comparisons)' % n_checks)
 
 
@@ -214,3 +263,4 @@ def run(ctx):
     C19.r3_insert_rollback(ctx, 'C18.R4')
     C08.r1_slots(ctx, 'C18.R5')
     r6_pending_accept(ctx)
+    r7_write_buffer(ctx)
